@@ -9,7 +9,7 @@ package token
 //@   ensures [equiv] matches(x, regexTokenRef) <==> inLang(x, yamlTokenL())
 // fn(args): a Go identifier, "(", anything without a line break, ")".
 //@ lemma lang_simpleFn(x string)
-//@   property C11 C03
+//@   property C11 C03 C15
 //@   ensures [equiv] matches(x, regexSimpleFn) <==>
 //@        inLang(x, reAnd(reCat(goTokenL(), reLit("("), reFull("(?s:.)*"), reLit(")")), reNot(reFull("(?s:.)*\n(?s:.)*"))))
 
